@@ -63,15 +63,19 @@ Print Assumptions C16_repaired_F7_F15_F19.
 
 (* ====================================================================================================
    2.  the round trip.
-   FULL STATEMENT (still false of the faithful model: F21 empty directories in zip archives, F20'):
+   FULL STATEMENT (still false of the faithful model only through F20'; F21 is repaired, a52f9e0):
      forall o jobs k p, let e := export_model o jobs k p in eo_exn e = None ->
        let i := import_model o SchNone (eo_art e) (dst_init []) in
        io_exn i = None /\ fs_eqb (io_dst i) (expected_dst [] jobs) = true.
    PROVED (partial): "which archive directory becomes which job" is exact for zip and tar archives
    whenever no job root lies in or below another job root (whole path components for zip since
    56f80f6 - the string-prefix hypothesis is gone; iterated dirname for tar), no other archive
-   directory is recognised by the schema function, and the ids are new and distinct.  The
-   file-level copy and the directory crawl are covered by the correspondence only. *)
+   directory is recognised by the schema function (since a52f9e0 the candidate directories include
+   the empty directories themselves: they fall under "no other directory is recognised"), and the
+   ids are new and distinct.  For the copy step of the zip importer two general facts are proved:
+   a file member never overwrites anything outside its new job directory (theorem 4) and a
+   directory member becomes a directory at the right place (C16_zip_dir_member_created).  The rest of
+   the file-level copy and the directory crawl are covered by the correspondence only. *)
 Theorem C16_export_import_roundtrip_partial_zip_mapping :
   forall o sch ms dst0 (roots : list (str * json)) names,
   (forall r r', In r (List.map fst roots) -> In r' (List.map fst roots) -> zip_under r r' = true -> r = r') ->
@@ -91,6 +95,45 @@ Theorem C16_zip_under_is_component_prefix : forall r r',
   zip_under r r' = true -> r' = [] \/ is_prefix (split 47 r') (split 47 r) = true.
 Proof. exact zip_under_components. Qed.
 Print Assumptions C16_zip_under_is_component_prefix.
+
+(* a52f9e0: a member whose name ends with '/' (an empty directory) is recreated as a directory at
+   job directory ++ (its path relative to the job root), and the step only adds entries *)
+Theorem C16_zip_dir_member_created : forall ms root id d name d',
+  is_job_id id = true ->
+  zip_under name root = true -> str_eqb name root = false ->
+  no_dotdot (split 47 name) = true -> starts_slash name = false ->
+  ends_slash name = true ->
+  zip_copy_one ms root id d name = ROk d' ->
+  exists Y, relpath name root = ROk (rel_text Y) /\ Forall comp_ok Y
+            /\ fs_get (job_dir id ++ Y) d' = Some None
+            /\ only_adds d d'.
+Proof. exact zip_dir_member_created. Qed.
+Print Assumptions C16_zip_dir_member_created.
+
+(* the former F21 witnesses: empty directories next to files, below a directory with files, a directory
+   that only contains an empty directory, a chain of empty directories - identical file trees after the
+   round trip through zip (both listing orders), tar and a directory; and a root job made of nothing
+   but nested empty directories *)
+Theorem C16_repaired_F21 :
+  (forall k, In k [KZip; KTar; KDir] ->
+     let o := orc f21_jobs in
+     let e := export_model o f21_jobs k PNone in
+     eo_exn e = None
+     /\ (let i := import_model o SchNone (eo_art e) (dst_init []) in
+         io_exn i = None /\ fs_eqb (io_dst i) (expected_dst [] f21_jobs) = true))
+  /\ (let o := orc_desc f21_jobs in
+      let e := export_model o f21_jobs KZip PNone in
+      eo_exn e = None
+      /\ (let i := import_model o SchNone (eo_art e) (dst_init []) in
+          io_exn i = None /\ fs_eqb (io_dst i) (expected_dst [] f21_jobs) = true))
+  /\ (let j := mkjob "42b7b4f2921788ea14dac5566e6f06d0" (sp_a (JInt 1)) "{""a"": 1}" [([q "only"], None); ([q "only"; q "inner"], None)] in
+      let o := orc [j] in
+      let e := export_model o [j] KZip PNone in
+      eo_art e = AZip [(FN_SP, q "{""a"": 1}"); (q "only/inner/", [])]
+      /\ (let i := import_model o SchNone (eo_art e) (dst_init []) in
+          io_exn i = None /\ fs_eqb (io_dst i) (expected_dst [] [j]) = true)).
+Proof. exact f21_repaired. Qed.
+Print Assumptions C16_repaired_F21.
 
 Theorem C16_export_import_roundtrip_partial_tar_mapping :
   forall o sch ms dst0 (roots : list (str * json)) names,
